@@ -213,14 +213,40 @@ def run_shards(module: Any, shard_list: list[Any], workers: int) -> list[Any]:
         for index, shard in enumerate(shard_list):
             results[index] = _run_shard_wrapper((module, index, shard))[1]
         return results
-    # maxtasksperchild=1: every shard runs in a process freshly forked from the (unpolluted) parent, so what a shard
-    # observes depends only on the shard itself, also when the implementation keeps process-global state
-    # (module-level caches, plug-in objects shared between managers).  This makes shard re-runs exact replays.
+    # Every shard runs in a process freshly forked from the (unpolluted) parent, so what a shard observes depends only
+    # on the shard itself, also when the implementation keeps process-global state (module-level caches, plug-in
+    # objects shared between managers).  This makes shard re-runs exact replays.
+    from multiprocessing.connection import wait
+
     ctx = mp.get_context("fork")
-    with ctx.Pool(min(workers, len(shard_list)), maxtasksperchild=1) as pool:
-        for index, res in pool.imap_unordered(_pool_entry, list(enumerate(shard_list)), chunksize=1):
-            results[index] = res
+    pending = list(enumerate(shard_list))
+    pending.reverse()
+    running: dict[Any, tuple[int, Any]] = {}
+    limit = min(workers, len(shard_list))
+    while pending or running:
+        while pending and len(running) < limit:
+            index, shard = pending.pop()
+            parent_conn, child_conn = ctx.Pipe(duplex=False)
+            proc = ctx.Process(target=_child_main, args=(child_conn, index, shard))
+            proc.start()
+            child_conn.close()
+            running[parent_conn] = (index, proc)
+        for conn in wait(list(running), timeout=5.0):
+            index, proc = running.pop(conn)
+            try:
+                results[index] = conn.recv()
+            except EOFError:
+                results[index] = f"INTERNAL shard {index} died without a result (exit code {proc.exitcode})"
+            conn.close()
+            proc.join()
     return results
+
+
+def _child_main(conn: Any, index: int, shard: Any) -> None:
+    try:
+        conn.send(_run_shard_wrapper((_MODULE, index, shard))[1])
+    finally:
+        conn.close()
 
 
 def _fork_call(args: tuple[str, Any]) -> Any:
@@ -258,6 +284,11 @@ def main(module: Any, argv: list[str] | None = None) -> int:
         return replay(module, Path(args.replay))
 
     start = time.time()
+    # Warm the entry-point plug-in cache in the parent (loading it takes ~1 s and would otherwise be repeated by every
+    # forked shard process); nothing else of the implementation is executed in the parent.
+    from ropt.plugins import PluginManager
+
+    PluginManager()
     shard_list = module.shards(args.tier, seed)
     results = run_shards(module, shard_list, args.workers)
 
